@@ -188,6 +188,36 @@ fn count_score_facts(ctx: &mut Ctx, m: &ModelData, text: &[char], refs: &[i64]) 
     f.char_occ + f.type_occ + f.dict_occ
 }
 
+/// `restored`: the predictor goes through `serialize_to_vec` / `deserialize_from_slice_unchecked` (placed at an
+/// odd offset of a larger buffer, followed by other bytes) before it is used.
+fn make_predictor_restored(ctx: &mut Ctx, prop: &str, case: &Case, tags: bool, shift: usize) -> Option<Predictor> {
+    let p = make_predictor(ctx, prop, case, tags)?;
+    let r = guard(|| -> Result<Predictor, String> {
+        let ser = p.serialize_to_vec().map_err(|e| format!("serialize_to_vec: {e}"))?;
+        let mut buf = vec![0xA5u8; shift];
+        buf.extend_from_slice(&ser);
+        buf.extend_from_slice(b"\x01\x02\x03");
+        // SAFETY: the bytes were produced by serialize_to_vec.
+        let (q, rest) = unsafe { Predictor::deserialize_from_slice_unchecked(&buf[shift..]) }.map_err(|e| format!("deserialize_from_slice_unchecked at offset {shift}: {e}"))?;
+        if rest != b"\x01\x02\x03" {
+            return Err(format!("remaining slice has {} bytes, 3 were appended (buffer offset {shift})", rest.len()));
+        }
+        Ok(q)
+    });
+    ctx.count("predictors_restored_from_their_serialised_form", 1);
+    match r {
+        Ok(Ok(q)) => Some(q),
+        Ok(Err(e)) => {
+            ctx.violation(&format!("{prop}:restoring_serialised_predictor_failed"), J::obj(vec![("error", J::s(&e)), ("case", case_json(case, None))]));
+            None
+        }
+        Err(pn) => {
+            ctx.violation(&format!("{prop}:restoring_serialised_predictor_panicked:{}", panic_site(&pn)), J::obj(vec![("panic", J::s(&pn)), ("case", case_json(case, None))]));
+            None
+        }
+    }
+}
+
 fn make_predictor(ctx: &mut Ctx, prop: &str, case: &Case, tags: bool) -> Option<Predictor> {
     match guard(|| new_predictor(&case.model, tags)) {
         Ok(Ok(p)) => Some(p),
@@ -241,7 +271,7 @@ pub fn run_c01(ctx: &mut Ctx, from: u64, to: u64, tiny: bool) {
             gen_case(&mut rng, &opts_for(ctx, k, TagMode::Maybe, tiny))
         };
         count_model_facts(ctx, &case.model);
-        let Some(p_plain) = make_predictor(ctx, "C01", &case, false) else { continue };
+        let Some(p_plain) = (if k % 6 == 5 && !tiny { make_predictor_restored(ctx, "C01", &case, false, (k % 16) as usize) } else { make_predictor(ctx, "C01", &case, false) }) else { continue };
         let p_tag = if case.model.tag_models.is_empty() { None } else { make_predictor(ctx, "C01", &case, true) };
         let other = if k % 4 == 0 { new_predictor(&perturb(&case.model, &case.texts, &mut rng), false).ok() } else { None };
         let mut occ = 0;
@@ -485,7 +515,18 @@ pub fn run_c06(ctx: &mut Ctx, from: u64, to: u64, tiny: bool) {
         let mut rng = Rng::new(case_seed(ctx.seed, "C06", k));
         let mut o = opts_for(ctx, k, TagMode::Always, tiny);
         o.max_text_len = o.max_text_len.min(80);
-        let case = gen_case(&mut rng, &o);
+        let mut case = gen_case(&mut rng, &o);
+        if k % 16 == 9 {
+            // a character scorer exists, but none of its patterns (boundary or tag) occurs anywhere in the texts;
+            // the tag tokens themselves still occur (their classifiers then consist of bias and type n-grams)
+            case.model.char_ngram_model = vec![vgen::mirror::NgramData { ngram: "\u{2}\u{3}".into(), weights: vec![1; 2 * usize::from(case.model.char_window_size) - 1] }];
+            case.model.dict_model.clear();
+            for tm in case.model.tag_models.iter_mut() {
+                tm.char_ngram_model.clear();
+            }
+            ctx.count("cases_where_no_character_pattern_occurs_in_any_text", 1);
+        }
+        let case = case;
         let m = &case.model;
         let n_classes: usize = m.tag_models.iter().map(ModelData::n_classes).max().unwrap_or(0);
         ctx.flag("models_with_more_than_8_classes", n_classes > 8);
@@ -493,7 +534,7 @@ pub fn run_c06(ctx: &mut Ctx, from: u64, to: u64, tiny: bool) {
         ctx.flag("models_with_empty_type_boundary_model", m.type_ngram_model.is_empty());
         ctx.flag("models_whose_tag_models_have_no_category", m.n_tags() == 0);
         let tagless = tagless_tag_predictor();
-        let Some(mut pred) = make_predictor(ctx, "C06", &case, true) else { continue };
+        let Some(mut pred) = (if k % 5 == 4 && !tiny { make_predictor_restored(ctx, "C06", &case, true, (k % 16) as usize) } else { make_predictor(ctx, "C06", &case, true) }) else { continue };
         let stored = rng.chance(2, 3);
         pred.store_tag_scores(stored);
         // a second, different tag predictor whose patterns also occur in these texts
@@ -676,8 +717,15 @@ pub fn run_c14(ctx: &mut Ctx, from: u64, to: u64, tiny: bool) {
         };
         let ser_len = bytes.len();
         bytes.extend_from_slice(&trailing);
+        // the serialised form may sit anywhere in a larger buffer (embedded data, memory-mapped files)
+        let shift = (k % 16) as usize;
+        let mut shifted = vec![0x5Au8; shift];
+        shifted.extend_from_slice(&bytes);
+        let bytes = shifted;
+        let bytes = &bytes[shift..];
+        ctx.flag("predictors_deserialised_from_odd_buffer_offset", shift % 2 == 1);
         // SAFETY: the bytes were produced by serialize_to_vec (the documented contract).
-        let de = guard(|| unsafe { Predictor::deserialize_from_slice_unchecked(&bytes) });
+        let de = guard(|| unsafe { Predictor::deserialize_from_slice_unchecked(bytes) });
         let (mut q, rest) = match de {
             Ok(Ok(x)) => x,
             Ok(Err(e)) => {
